@@ -13,6 +13,25 @@ CLAIMED = {
         'Control flow of decode.c is modelled by hand and tied only by correspondence.',
    technique='Coq proof (induction over the input, finite sweeps lifted by forallb_forall) + extracted-model differential correspondence',
    ref='DESIGN 6 C16'),
+ 'C08': dict(
+   text='Coq theorems about the hand-written model of message.c header handling: for every well-formed message text (any fields, duplicates, '
+        'case, folding, 8-bit, length) parse recovers exactly fields+body; after any sequence of set_header calls the written bytes are the '
+        'untouched original fields in order (names, values incl. folding), each set name exactly once with the last value, and the original body; '
+        'the written file re-reads as exactly that. Complementary classes (NUL, unterminated last header, leading empty body lines, CRLF separator) '
+        'are refuted by witness lemmas and pinned as known findings F-10a-d. Model tied by differential runs (message.h driver + mdsort binary) '
+        'and an independent RFC 5322 line reader as monitor.',
+   note='Trusted: Coq kernel, extraction, message.h driver, python monitor, glibc qsort being a stable merge sort (modelled as stable insertion sort; '
+        'the binary-search theorem itself holds for any key-sorted permutation). Control flow of message.c modelled by hand.',
+   technique='Coq proof (invariant over the sequence of set_header operations, sorted-permutation uniqueness, binary-search correctness) + differential correspondence',
+   ref='DESIGN 6 C08'),
+ 'C10': dict(
+   text='Coq theorems: a header condition on a parsed well-formed message is true iff the pattern (any regexec function) matches the unfolded, '
+        'RFC 2047-decoded value of some occurrence of some named field (names case-insensitive); binary search + run extension returns exactly '
+        'the run of equal names on any key-sorted table and never indexes out of bounds; unfolding yields one line. Tied by differential runs of '
+        'message_get_header and of the binary with header rules whose regex outcome is computed by the platform regexec.',
+   note='Trusted: as C08/C16 plus platform regcomp/regexec used as oracle on both sides; RFC 2047 full factorisation not proved (see C16).',
+   technique='Coq proof (sorted-array binary search, stability of the sort, iff over names/fields) + differential correspondence with platform regexec',
+   ref='DESIGN 6 C10'),
 }
 
 ALL = ['C%02d' % i for i in range(1, 19)]
